@@ -266,6 +266,15 @@ func genC17(tier string) []Scenario {
 			out = append(out, sc2.scenario())
 		}
 	}
+	// a VALUE-returning prep that hands back one slice object, refilled in place, in every run: the
+	// items exec and post receive are the values that slice holds in THAT run
+	for _, c := range []int{0, 2} {
+		for _, anyExec := range []bool{false, true} {
+			sc := batchScn{name: fmt.Sprintf("styles-batch value-prep same slice refilled n=2 c=%d anyExec=%v runs=3", c, anyExec), n: 2, c: c, budget: 1, shape: shAny, sameSlice: true, yield: c > 0, anyExec: anyExec,
+				execMenu: okMenu, postMenu: postX, bound: 0, chkPositional: true, runs: 3}
+			out = append(out, sc.scenario())
+		}
+	}
 	// error Results returned from deep inside large batches keep their state as well
 	sizeSweep(&out, "styles-batch", nil)
 	return out
